@@ -73,7 +73,7 @@ def _worker(args):
     agg = {
         "evals": 0, "runs": 0, "faults": {}, "probes": {}, "sim_seconds": 0.0, "steps": 0,
         "shapes": set(), "violations": [], "selfcheck_a": 0, "selfcheck_a_fail": [], "samples": [],
-        "digests": {}, "cross": {},
+        "digests": {}, "cross": {}, "sets": {},
     }
     try:
         items = []
@@ -98,6 +98,8 @@ def _worker(args):
             _merge(agg["faults"], res.get("faults", {}))
             _merge(agg["probes"], res.get("probes", {}))
             _merge(agg["cross"], res.get("cross", {}))
+            for k, vals in res.get("sets", {}).items():
+                agg["sets"].setdefault(k, set()).update(vals)
             agg["sim_seconds"] += res.get("sim_seconds", 0.0)
             agg["steps"] += res.get("steps", 0)
             if res.get("nontrivial"):
@@ -117,6 +119,7 @@ def _worker(args):
                     agg.setdefault("violations_dropped", 0)
                     agg["violations_dropped"] = agg.get("violations_dropped", 0) + 1
         agg["shapes"] = sorted(agg["shapes"])
+        agg["sets"] = {k: sorted(v) for k, v in agg["sets"].items()}
         return agg
     except BaseException as exc:  # noqa: BLE001
         return {"harness_error": f"{type(exc).__name__}: {exc}", "traceback": traceback.format_exc()}
@@ -270,7 +273,7 @@ def main(mod, argv=None) -> int:
         for w in range(workers):
             tasks.append((mod.__name__, vseed, [], args.tier, (w, None, workers)))
     agg = {"evals": 0, "runs": 0, "faults": {}, "probes": {}, "sim_seconds": 0.0, "steps": 0, "shapes": set(),
-           "violations": [], "selfcheck_a": 0, "selfcheck_a_fail": [], "samples": [], "digests": {}, "cross": {}}
+           "violations": [], "selfcheck_a": 0, "selfcheck_a_fail": [], "samples": [], "digests": {}, "cross": {}, "sets": {}}
     harness_errors = []
     ctx = multiprocessing.get_context("fork")
     deadline = 3000 if args.tier == "quick" else 6 * 3600
@@ -360,6 +363,7 @@ def main(mod, argv=None) -> int:
             "b_fresh_interpreter_other_hashseed": {"checked": selftest_b["checked"], "failed": len(selftest_b["mismatch"])},
         },
         "cross_property_observations": dict(sorted(agg["cross"].items())),
+        "distinct_values_reached": {k: len(v) for k, v in sorted(agg["sets"].items())},
         "known_findings_observed": [{"what": k["what"], "count": c} for k, c in known_hits],
         "violation_classes": [{"rule": r, "replay": p, "count": c} for r, p, _v, c in reported],
         "workers": workers,
@@ -427,6 +431,8 @@ def _consume(results, agg, harness_errors) -> None:
         if len(agg["samples"]) < 3:
             agg["samples"].extend(r["samples"])
         agg["digests"].update(r["digests"])
+        for k, vals in r.get("sets", {}).items():
+            agg["sets"].setdefault(k, set()).update(vals)
 
 
 def _validate_evidence(evidence: dict, harness_errors: list) -> None:
